@@ -110,6 +110,9 @@ func ruleMonotoneFlag(rule, typ, field string) func(*Ctx) {
 			for _, st := range fieldStoresIn(c, f, typ)[field] {
 				n++
 				b, ok := constBool(st.Val)
+				if !ok && stickyOr(st, typ, field) {
+					b, ok = true, true
+				}
 				c.check(ok && b, rule, fmt.Sprintf("%s:%s:%s#%d", rule, c.fname(f), field, n), st.Pos(), c.fname(f),
 					typ+"."+field+" is only ever set to true", typ+"."+field+" is assigned "+st.Val.String()+": adding a closed set after an open one clears the flag, and the sweep then treats open edges as closed",
 					"the engine must know that open paths are present whatever the order of AddPaths calls")
@@ -815,5 +818,635 @@ func ruleSplitDedupe(rule string) func(*Ctx) {
 			}
 		}
 		c.floor(rule, n, 1)
+	}
+}
+
+// ruleInvalidateFlag: `flag` caches a fact about `data` (isSortedMinimaList: minimaList is sorted). Every place
+// that adds to `data` — an append stored back, or the field's address handed to a callee — must be dominated by
+// `flag = false` in the same function.
+func ruleInvalidateFlag(rule, typ, data, flag string, min int, why string) func(*Ctx) {
+	return func(c *Ctx) {
+		n := 0
+		for _, f := range c.srcFuncs() {
+			var clears []*ssa.Store
+			for _, st := range fieldStoresIn(c, f, typ)[flag] {
+				if b, ok := constBool(st.Val); ok && !b {
+					clears = append(clears, st)
+				}
+			}
+			k := 0
+			for _, b := range f.Blocks {
+				for idx, in := range b.Instrs {
+					what := ""
+					switch x := in.(type) {
+					case *ssa.Store:
+						fa, ok := x.Addr.(*ssa.FieldAddr)
+						if ok && typeName(fa.X.Type()) == "*"+typ && fieldName(fa.X.Type(), fa.Field) == data {
+							if call, ok := x.Val.(*ssa.Call); ok {
+								if bi, ok := call.Call.Value.(*ssa.Builtin); ok && bi.Name() == "append" {
+									what = "appends to " + typ + "." + data
+								}
+							}
+						}
+					case ssa.CallInstruction:
+						for _, a := range x.Common().Args {
+							if fa, ok := a.(*ssa.FieldAddr); ok && typeName(fa.X.Type()) == "*"+typ && fieldName(fa.X.Type(), fa.Field) == data {
+								what = "hands &" + typ + "." + data + " to " + calleeName(c, x)
+							}
+						}
+					}
+					if what == "" {
+						continue
+					}
+					k++
+					n++
+					ok := false
+					for _, cl := range clears {
+						if cl.Block() == b {
+							for j := 0; j < idx; j++ {
+								if b.Instrs[j] == ssa.Instruction(cl) {
+									ok = true
+								}
+							}
+						} else if cl.Block().Dominates(b) {
+							ok = true
+						}
+					}
+					c.check(ok, rule, fmt.Sprintf("%s:%s:%s#%d", rule, c.fname(f), data, k), in.Pos(), c.fname(f),
+						what+" after "+flag+" = false", what+" without setting "+flag+" = false first: the next run believes the list is still in the order of the previous run", why)
+				}
+			}
+		}
+		c.floor(rule, n, min)
+	}
+}
+
+// stickyOr: the stored value is `flag || x`: a phi of the constant true (taken when the flag's own current value is
+// true) and any other value (taken when it is false, so storing false changes nothing).
+func stickyOr(st *ssa.Store, typ, field string) bool {
+	phi, ok := st.Val.(*ssa.Phi)
+	if !ok || len(phi.Edges) != 2 {
+		return false
+	}
+	tv, _, cond := phiByCond(phi)
+	if cond == nil {
+		// `a || b` is lowered as: if a goto done else rhs; done: phi [a-block: true, rhs: b]
+		b := phi.Block()
+		for i, p := range b.Preds {
+			ifi, ok := p.Instrs[len(p.Instrs)-1].(*ssa.If)
+			if ok && p.Succs[0] == b && isFieldLoadOf(ifi.Cond, typ, field) {
+				if k, ok := constBool(phi.Edges[i]); ok && k {
+					return true
+				}
+			}
+		}
+		return false
+	}
+	k, ok := constBool(tv)
+	return ok && k && isFieldLoadOf(cond, typ, field)
+}
+
+// ruleNoStaleGuard: fields that are recomputed for every group (the round-join step) must not be assigned under a
+// condition that reads one of those same fields: their current value is left over from the previous group or the
+// previous execution, so "skip the recomputation when nothing changed" keeps a value computed for another delta sign.
+func ruleNoStaleGuard(rule, typ string, fields []string, min int, why string) func(*Ctx) {
+	return func(c *Ctx) {
+		in := map[string]bool{}
+		for _, f := range fields {
+			in[f] = true
+		}
+		var reads func(v ssa.Value, depth int) string
+		reads = func(v ssa.Value, depth int) string {
+			if depth > 8 {
+				return ""
+			}
+			switch x := v.(type) {
+			case *ssa.UnOp:
+				if x.Op == token.MUL {
+					if fa, ok := x.X.(*ssa.FieldAddr); ok && typeName(fa.X.Type()) == "*"+typ && in[fieldName(fa.X.Type(), fa.Field)] {
+						return fieldName(fa.X.Type(), fa.Field)
+					}
+					return ""
+				}
+				return reads(x.X, depth+1)
+			case *ssa.BinOp:
+				if r := reads(x.X, depth+1); r != "" {
+					return r
+				}
+				return reads(x.Y, depth+1)
+			case *ssa.Convert:
+				return reads(x.X, depth+1)
+			case *ssa.Phi:
+				for _, e := range x.Edges {
+					if r := reads(e, depth+1); r != "" {
+						return r
+					}
+				}
+			case *ssa.Call:
+				for _, a := range x.Call.Args {
+					if r := reads(a, depth+1); r != "" {
+						return r
+					}
+				}
+			}
+			return ""
+		}
+		n := 0
+		for _, f := range c.srcFuncs() {
+			stores := fieldStoresIn(c, f, typ)
+			k := 0
+			for _, fld := range fields {
+				for _, st := range stores[fld] {
+					k++
+					n++
+					bad := ""
+					for d := st.Block(); d != nil; d = d.Idom() {
+						if len(d.Preds) != 1 {
+							continue
+						}
+						p := d.Preds[0]
+						ifi, ok := p.Instrs[len(p.Instrs)-1].(*ssa.If)
+						if !ok || p.Succs[0] == p.Succs[1] {
+							continue
+						}
+						if r := reads(ifi.Cond, 0); r != "" {
+							bad = fmt.Sprintf("%s.%s is assigned only when a test on %s.%s (at %s) allows it: that value was computed for the previous group or run", typ, fld, typ, r, c.pos(ifi.Cond.Pos()))
+						}
+					}
+					c.check(bad == "", rule, fmt.Sprintf("%s:%s:%s#%d", rule, c.fname(f), fld, k), st.Pos(), c.fname(f),
+						typ+"."+fld+" is assigned under conditions that read configuration only", bad, why)
+				}
+			}
+		}
+		c.floor(rule, n, min)
+	}
+}
+
+// rulePrevHotEdge: C09.prev-hot — getPrevHotEdge returns the nearest edge to the left that is producing output AND
+// belongs to a closed path; the orientation of a new closed ring is taken from it. On every explored path that
+// returns an edge, that edge was tested hot and tested not open.
+func rulePrevHotEdge(rule string) func(*Ctx) {
+	return func(c *Ctx) {
+		f := c.fn("getPrevHotEdge")
+		ex := &explorer{c: c, f: f, canon: canonParams(f, "ae"), maxPaths: 2000}
+		outs := ex.explore(nil)
+		bad := ""
+		n := 0
+		for _, p := range outs {
+			if p.end != "return" || len(p.ret) != 1 || p.ret[0].abs.k == aNil {
+				continue
+			}
+			r := p.ret[0].expr
+			n++
+			hot, closed := false, false
+			for _, cd := range p.conds {
+				if cd.expr == "isHotEdge("+r+")" && cd.taken {
+					hot = true
+				}
+				if cd.expr == "isOpen("+r+")" && !cd.taken {
+					closed = true
+				}
+			}
+			// a nil result reached through the loop condition is fine; an edge must have passed both tests
+			nilPath := false
+			for _, cd := range p.conds {
+				if cd.expr == "("+r+" != nil)" && !cd.taken || cd.expr == "("+r+" == nil)" && cd.taken {
+					nilPath = true
+				}
+			}
+			if nilPath {
+				continue
+			}
+			if (!hot || !closed) && bad == "" {
+				bad = fmt.Sprintf("returns %s without having found it hot=%v and not open=%v (path: %s)", r, hot, closed, p.condString())
+			}
+		}
+		c.check(bad == "" && n > 0, rule, rule+":getPrevHotEdge:closed-and-hot", f.Pos(), "getPrevHotEdge",
+			fmt.Sprintf("on %d explored paths the edge returned was tested hot and tested closed", n), bad,
+			"a new closed ring takes its orientation from the previous hot edge; an open polyline in between has no inside, and using it turns the ring inside out (only with an open path of 3+ vertices hot to the left of a closed local minimum)")
+	}
+}
+
+// ruleRetireBeforeRelabel: C06.retire — when tidyEdgePair merges the ring of node X into another ring
+// (setNewOwner(X, Y.ownerIdx)), the result slot of X's OLD owner is emptied first: `results[X.ownerIdx] = nil` must be
+// executed before the call, because the call rewrites X.ownerIdx.
+func ruleRetireBeforeRelabel(rule string) func(*Ctx) {
+	return func(c *Ctx) {
+		f := c.fn("(RectClip64).tidyEdgePair")
+		ownerLoadOf := func(v ssa.Value) ssa.Value { // v = *(&X.ownerIdx) -> X
+			u, ok := v.(*ssa.UnOp)
+			if !ok || u.Op != token.MUL {
+				return nil
+			}
+			fa, ok := u.X.(*ssa.FieldAddr)
+			if !ok || fieldName(fa.X.Type(), fa.Field) != "ownerIdx" {
+				return nil
+			}
+			return fa.X
+		}
+		n := 0
+		for _, b := range f.Blocks {
+			for idx, in := range b.Instrs {
+				call, ok := in.(*ssa.Call)
+				if !ok || !isCallNamed(c, call, "setNewOwner") || len(call.Call.Args) != 2 {
+					continue
+				}
+				if ownerLoadOf(call.Call.Args[1]) == nil {
+					continue // a brand-new index: nothing to retire
+				}
+				X := call.Call.Args[0]
+				n++
+				// the index of some `results[t] = nil` is X.ownerIdx READ before the call (the store itself may come later)
+				before := map[ssa.Value]bool{}
+				for _, pi := range b.Instrs[:idx] {
+					if v, ok := pi.(ssa.Value); ok && ownerLoadOf(v) == X {
+						before[v] = true
+					}
+				}
+				for d := b.Idom(); d != nil; d = d.Idom() {
+					for _, pi := range d.Instrs {
+						if v, ok := pi.(ssa.Value); ok && ownerLoadOf(v) == X {
+							before[v] = true
+						}
+					}
+				}
+				retired := false
+				for _, bb := range f.Blocks {
+					for _, pi := range bb.Instrs {
+						st, ok := pi.(*ssa.Store)
+						if !ok {
+							continue
+						}
+						if k, isNil := st.Val.(*ssa.Const); !isNil || !k.IsNil() {
+							continue
+						}
+						if ia, ok := st.Addr.(*ssa.IndexAddr); ok && before[ia.Index] {
+							retired = true
+						}
+					}
+				}
+				c.check(retired, rule, fmt.Sprintf("%s:tidyEdgePair:merge#%d", rule, n), call.Pos(), "(RectClip64).tidyEdgePair",
+					"the old owner's result slot is emptied before the ring is relabelled",
+					"setNewOwner("+valueName(X)+", …) runs before results["+valueName(X)+".ownerIdx] = nil: the index read afterwards is the NEW owner, so the merged ring's own slot is emptied or the old slot keeps a second copy",
+					"a ring that was split along one rectangle edge and is rejoined along another must end up in exactly one result slot; otherwise the polygon is emitted twice (winding 2) or lost")
+			}
+		}
+		c.floor(rule, n, 1)
+	}
+}
+
+// ruleInitOnlyField: an emitted output vertex is never moved: the field is written only while the node is being
+// constructed (a store into the node the same function has just allocated).
+func ruleInitOnlyField(rule, typ, field string, min int, why string) func(*Ctx) {
+	return func(c *Ctx) {
+		n := 0
+		for _, f := range c.srcFuncs() {
+			k := 0
+			for _, st := range fieldStoresIn(c, f, typ)[field] {
+				k++
+				n++
+				fa := st.Addr.(*ssa.FieldAddr)
+				_, fresh := fa.X.(*ssa.Alloc)
+				if !fresh {
+					// moving the last vertex along a straight run is harmless only if the run continues in the SAME
+					// direction: accepted when a sign test of a dot product guards the store
+					dirTest := func(v ssa.Value) bool {
+						bo, ok := v.(*ssa.BinOp)
+						if !ok {
+							return false
+						}
+						for _, o := range []ssa.Value{bo.X, bo.Y} {
+							if call, ok := o.(*ssa.Call); ok && strings.Contains(strings.ToLower(calleeName(c, call)), "dotproduct") {
+								return true
+							}
+						}
+						return false
+					}
+					fresh = guardedBy(st, true, dirTest) || guardedBy(st, false, dirTest)
+				}
+				c.check(fresh, rule, fmt.Sprintf("%s:%s:%s#%d", rule, c.fname(f), field, k), st.Pos(), c.fname(f),
+					typ+"."+field+" is written while the node is constructed (or moved along a run whose direction was tested)", typ+"."+field+" of an EXISTING node ("+valueName(fa.X)+") is overwritten without a direction test: a vertex already in the output is moved, also when the path doubles back", why)
+			}
+		}
+		c.floor(rule, n, min)
+	}
+}
+
+// ruleHorzJoinRoles: C01.horz-roles — two overlapping horizontal output segments of opposite direction are joined
+// by duplicating one end node of each; duplicateOp's flag says on which side of the node the copy goes and must be
+// true exactly for the segment that runs left to right. Which of the pair that is follows from the branch the call
+// sits in (`if hs1.leftToRight` / else, the two directions being different).
+func ruleHorzJoinRoles(rule string) func(*Ctx) {
+	return func(c *Ctx) {
+		f := c.fn("(clipperBase).convertHorzSegsToJoins")
+		segOf := func(v ssa.Value, field string) ssa.Value { // v = *(&H.field) -> H
+			u, ok := v.(*ssa.UnOp)
+			if !ok || u.Op != token.MUL {
+				return nil
+			}
+			fa, ok := u.X.(*ssa.FieldAddr)
+			if !ok || fieldName(fa.X.Type(), fa.Field) != field {
+				return nil
+			}
+			return fa.X
+		}
+		n := 0
+		for _, b := range f.Blocks {
+			for _, in := range b.Instrs {
+				call, ok := in.(*ssa.Call)
+				if !ok || !isCallNamed(c, call, "duplicateOp") || len(call.Call.Args) != 2 {
+					continue
+				}
+				H := segOf(call.Call.Args[0], "leftOp")
+				flag, okb := constBool(call.Call.Args[1])
+				if H == nil || !okb {
+					continue
+				}
+				// direction knowledge from the dominating test on some segment's leftToRight
+				var known ssa.Value
+				ltr := false
+				for _, p := range f.Blocks {
+					ifi, ok := p.Instrs[len(p.Instrs)-1].(*ssa.If)
+					if !ok || known != nil {
+						continue
+					}
+					s := segOf(ifi.Cond, "leftToRight")
+					if s == nil {
+						continue
+					}
+					for k, arm := range p.Succs {
+						// the arm is entered only through this test (other predecessors are its own back edges)
+						only := true
+						for _, q := range arm.Preds {
+							if q != p && !arm.Dominates(q) {
+								only = false
+							}
+						}
+						if only && arm.Dominates(b) {
+							known, ltr = s, k == 0
+						}
+					}
+				}
+				if known == nil {
+					continue
+				}
+				n++
+				isLTR := ltr
+				if H != known {
+					isLTR = !ltr // the two segments of a pair run in opposite directions
+				}
+				c.check(flag == isLTR, rule, fmt.Sprintf("%s:convertHorzSegsToJoins:dup#%d", rule, n), call.Pos(), "(clipperBase).convertHorzSegsToJoins",
+					fmt.Sprintf("duplicateOp(%s.leftOp, %v): the segment runs left-to-right=%v", valueName(H), flag, isLTR),
+					fmt.Sprintf("duplicateOp(%s.leftOp, %v) although on this branch that segment runs left-to-right=%v: the two rings are spliced the wrong way round", valueName(H), flag, isLTR),
+					"a horizontal join splices two rings (or one ring with itself) at touching horizontal edges; with the roles exchanged in one direction case, holes are lost or regions added only for inputs whose first-sorted segment runs right to left")
+			}
+		}
+		c.floor(rule, n, 4)
+	}
+}
+
+// ruleSplitOnAdvance: C01.join.advance — two edges are joined only while their current segments coincide; when an
+// edge moves on to its next segment (updateEdgeIntoAEL) the join must be undone whatever the new segment looks
+// like: on every explored path to a return, isJoined(edge) has been tested, and where it held split was called.
+func ruleSplitOnAdvance(rule string) func(*Ctx) {
+	return func(c *Ctx) {
+		f := c.fn("(clipperBase).updateEdgeIntoAEL")
+		ex := &explorer{c: c, f: f, canon: canonParams(f, "c", "ae"), maxPaths: 2000}
+		outs := ex.explore(nil)
+		bad := ""
+		n := 0
+		for _, p := range outs {
+			if p.end != "return" {
+				continue
+			}
+			n++
+			tested, joined := false, false
+			for _, cd := range p.conds {
+				if cd.expr == "isJoined(ae)" {
+					tested, joined = true, cd.taken
+				}
+			}
+			switch {
+			case !tested:
+				bad = fmt.Sprintf("returns without having tested isJoined(ae) (path: %s)", p.condString())
+			case joined && !p.called("(clipperBase).split"):
+				bad = "the edge is joined and split is not called"
+			}
+		}
+		c.check(bad == "" && n >= 2, rule, rule+":(clipperBase).updateEdgeIntoAEL:every-exit", f.Pos(), "(clipperBase).updateEdgeIntoAEL",
+			fmt.Sprintf("isJoined(ae) is tested (and split called when it holds) on all %d explored exits, the horizontal one included", n), bad,
+			"a joined edge that turns horizontal without being split keeps a partner it no longer coincides with: the next intersection or maximum splits the wrong pair — lost holes, missing regions, a nil dereference for some inputs with collinear runs that turn horizontal")
+	}
+}
+
+// ruleMergedOwner: C01.merged-owner — when the points of one output record are spliced into another record's ring,
+// the emptied record (pts = nil) must be given an owner on the same path, in tree mode and in flat mode alike:
+// getRealOutRec resolves a stale reference to an emptied record by following its owner links.
+func ruleMergedOwner(rule string) func(*Ctx) {
+	return func(c *Ctx) {
+		type site struct {
+			fn   string
+			loop bool
+		}
+		n := 0
+		for _, s := range []site{{"(clipperBase).processHorzJoins", true}, {"(clipperBase).joinOutrecPaths", false}} {
+			f := c.fn(s.fn)
+			ex := &explorer{c: c, f: f, maxPaths: 4000}
+			var outs []*pathOutcome
+			if s.loop {
+				loops := naturalLoops(f)
+				if len(loops) != 1 {
+					fatalf("%s: expected one loop", s.fn)
+				}
+				ll := loops[0]
+				ex.stop = func(b *ssa.BasicBlock) bool { return !ll.blocks[b] }
+				outs = ex.explore(ll.header)
+			} else {
+				outs = ex.explore(nil)
+			}
+			if ex.overflow {
+				fatalf("%s: path explosion", s.fn)
+			}
+			bad := ""
+			k := 0
+			for _, p := range outs {
+				if p.end != "loop" && p.end != "return" {
+					continue
+				}
+				for si, st := range p.stores {
+					if !strings.HasSuffix(st.addr, ".pts") || st.val.abs.k != aNil {
+						continue
+					}
+					X := strings.TrimSuffix(st.addr, ".pts")
+					// only records whose ring went elsewhere: a merge, not a discard — the first such store on the path
+					k++
+					owned := false
+					after := false
+					for _, q := range p.seq {
+						if q == -(si + 1) {
+							after = true
+							continue
+						}
+						if !after {
+							continue
+						}
+						if q < 0 && p.stores[-q-1].addr == X+".owner" {
+							owned = true
+						}
+						if q > 0 && strings.HasSuffix(p.calls[q-1].callee, "setOwner") && len(p.calls[q-1].args) > 0 && p.calls[q-1].args[0].expr == X {
+							owned = true
+						}
+					}
+					if !owned && bad == "" {
+						bad = fmt.Sprintf("%s is emptied (pts = nil) and gets no owner on the path [%s]", X, p.condString())
+					}
+					break
+				}
+			}
+			n++
+			c.check(bad == "" && k > 0, rule, fmt.Sprintf("%s:%s:emptied-record", rule, s.fn), f.Pos(), s.fn,
+				fmt.Sprintf("on %d explored paths the emptied record is given an owner (store or setOwner) after pts = nil", k), bad,
+				"a later join or split that still refers to the emptied record finds the surviving ring through its owner; without the link in flat mode a chain of three touching polygons loses a region or dereferences nil")
+		}
+		c.floor(rule, n, 2)
+	}
+}
+
+// ruleShoelaceConvention: every signed-area function of the package sums, per edge from vertex P (previous) to
+// vertex C (current), the term (P.Y + C.Y) * (P.X - C.X). doSplitOp compares the sign of areaTriangle with that of
+// areaOP, IsPositive64 and the offsetter compare Area64 with 0: one function written in the opposite convention
+// (C.X - P.X) flips exactly those decisions. The rule finds each such product in the syntax tree, checks that both
+// factors name the same two vertices, and that the X difference is previous-minus-current, "previous" being
+// x.prev of a ring node, the lagging variable of a range loop, or the cyclic predecessor among the parameters.
+func ruleShoelaceConvention(rule string, fns []string, minTerms int) func(*Ctx) {
+	return func(c *Ctx) {
+		n := 0
+		for _, fn := range fns {
+			fd := c.decl(fn)
+			params := []string{}
+			for _, fl := range fd.Type.Params.List {
+				for _, nm := range fl.Names {
+					params = append(params, nm.Name)
+				}
+			}
+			strip := func(e ast.Expr) ast.Expr {
+				for {
+					switch x := e.(type) {
+					case *ast.ParenExpr:
+						e = x.X
+						continue
+					case *ast.CallExpr:
+						if id, ok := x.Fun.(*ast.Ident); ok && id.Name == "float64" && len(x.Args) == 1 {
+							e = x.Args[0]
+							continue
+						}
+					}
+					return e
+				}
+			}
+			axisPair := func(e ast.Expr, op token.Token, axis string) (string, string, bool) {
+				be, ok := strip(e).(*ast.BinaryExpr)
+				if !ok || be.Op != op {
+					return "", "", false
+				}
+				l, ok1 := strip(be.X).(*ast.SelectorExpr)
+				r, ok2 := strip(be.Y).(*ast.SelectorExpr)
+				if !ok1 || !ok2 || l.Sel.Name != axis || r.Sel.Name != axis {
+					return "", "", false
+				}
+				return render(l.X), render(r.X), true
+			}
+			// lagging variables: `prev = cur` inside a `for _, cur := range` body
+			lag := map[string]string{}
+			ast.Inspect(fd.Body, func(nd ast.Node) bool {
+				rs, ok := nd.(*ast.RangeStmt)
+				if !ok || rs.Value == nil {
+					return true
+				}
+				cur := render(rs.Value)
+				for _, s := range rs.Body.List {
+					if as, ok := s.(*ast.AssignStmt); ok && len(as.Lhs) == 1 && len(as.Rhs) == 1 && render(as.Rhs[0]) == cur {
+						lag[render(as.Lhs[0])] = cur
+					}
+				}
+				return true
+			})
+			k := 0
+			ast.Inspect(fd.Body, func(nd ast.Node) bool {
+				var x, y ast.Expr
+				switch e := nd.(type) {
+				case *ast.BinaryExpr:
+					if e.Op != token.MUL {
+						return true
+					}
+					x, y = e.X, e.Y
+				case *ast.CallExpr:
+					if id, ok := e.Fun.(*ast.Ident); !ok || id.Name != "mulInt64" || len(e.Args) != 2 {
+						return true
+					}
+					x, y = e.Args[0], e.Args[1]
+				default:
+					return true
+				}
+				yp, yq, ok1 := axisPair(x, token.ADD, "Y")
+				xr, xs, ok2 := axisPair(y, token.SUB, "X")
+				if !ok1 || !ok2 {
+					yp, yq, ok1 = axisPair(y, token.ADD, "Y")
+					xr, xs, ok2 = axisPair(x, token.SUB, "X")
+				}
+				if !ok1 || !ok2 {
+					return true
+				}
+				k++
+				n++
+				bad := ""
+				if !((yp == xr && yq == xs) || (yp == xs && yq == xr)) {
+					bad = fmt.Sprintf("the Y sum is over (%s, %s) but the X difference over (%s, %s): not one edge", yp, yq, xr, xs)
+				} else {
+					// xr - xs: is xr the previous vertex of xs?
+					rel := ""
+					idx := func(s string) int {
+						for i, p := range params {
+							if p == s {
+								return i
+							}
+						}
+						return -1
+					}
+					switch {
+					case strings.TrimSuffix(xr, ".pt") == strings.TrimSuffix(xs, ".pt")+".prev":
+						rel = "prev-cur"
+					case strings.TrimSuffix(xs, ".pt") == strings.TrimSuffix(xr, ".pt")+".prev":
+						rel = "cur-prev"
+					case strings.TrimSuffix(xs, ".pt") == strings.TrimSuffix(xr, ".pt")+".next":
+						rel = "prev-cur"
+					case strings.TrimSuffix(xr, ".pt") == strings.TrimSuffix(xs, ".pt")+".next":
+						rel = "cur-prev"
+					case lag[xr] == xs:
+						rel = "prev-cur"
+					case lag[xs] == xr:
+						rel = "cur-prev"
+					case idx(xr) >= 0 && idx(xs) >= 0 && len(params) >= 3:
+						if (idx(xr)+1)%len(params) == idx(xs) {
+							rel = "prev-cur"
+						} else if (idx(xs)+1)%len(params) == idx(xr) {
+							rel = "cur-prev"
+						}
+					}
+					switch rel {
+					case "prev-cur":
+					case "cur-prev":
+						bad = fmt.Sprintf("the term is (%s.Y + %s.Y) * (%s.X - %s.X): current minus previous, the opposite of the package's convention — this area has the opposite sign of Area64/areaOP for the same ring", yp, yq, xr, xs)
+					default:
+						bad = fmt.Sprintf("cannot tell which of %s, %s is the previous vertex", xr, xs)
+					}
+				}
+				c.check(bad == "", rule, fmt.Sprintf("%s:%s:term#%d", rule, fn, k), nd.Pos(), fn,
+					fmt.Sprintf("(%s.Y + %s.Y) * (%s.X - %s.X): previous minus current", yp, yq, xr, xs), bad,
+					"signs of areas are compared across functions (doSplitOp: triangle vs ring; IsPositive64; offset orientation): one function in the opposite convention keeps or discards the wrong loop when a ring is repaired, only for rings that cross themselves after rounding")
+				return true
+			})
+		}
+		c.floor(rule, n, minTerms)
 	}
 }
